@@ -135,4 +135,38 @@ theorem c06_22_eom_exact_or_nothing (cfg : Cfg) (s : St) (now : Nat) (mid : Mess
     simp only [hok', Bool.false_eq_true, if_false]
     exact ⟨fun h => absurd (by simp [deliveries]) h, fun _ => trivial, PyDict.get?_erase_self _ _⟩
 
+/-- J1939-22, GIVE UP, RESPONDER SIDE: a receive record whose deadline has passed is removed by the pass; for a
+    destination-specific session an abort (reason TIMEOUT = 3) with the session number and PGN goes to the originator, for
+    a broadcast session nothing is sent -/
+theorem c06_22_rcv_giveup (now : Nat) (r : Rcv) (hd : r.deadline ≠ 0) (hdue : r.deadline ≤ now) :
+    (tickRcvOne now r).1 = none ∧
+    (tickRcvOne now r).2.1 = (if r.dest != Const.Addr.GLOBAL then [.tx (Tp22.abort r.dest r.src r.session Const.Abort22.TIMEOUT r.pgn)] else []) ∧
+    Const.Abort22.TIMEOUT = 3 := by
+  have e1 : (r.deadline != 0) = true := by simpa using hd
+  have e2 : ¬ r.deadline > now := by omega
+  unfold tickRcvOne
+  simp only [e1, if_true, e2, if_false]
+  exact ⟨trivial, trivial, by decide⟩
+
+/-- J1939-22, GIVE UP, ORIGINATOR SIDE: a send record whose deadline has passed while it waits for a CTS is removed with
+    an abort (reason 3) to the responder; one that waits for the end-of-message acknowledgement is removed silently; in
+    both cases its session number goes back to the RTS/CTS pool -/
+theorem c06_22_snd_giveup (cfg : Cfg) (now : Nat) (b : Snd) (hd : b.deadline ≠ 0) (hdue : b.deadline ≤ now) :
+    (b.state = S_WAITING_CTS →
+      tickSndOne cfg now b = (none, [.tx (Tp22.abort b.src b.dest b.session Const.Abort22.TIMEOUT b.pgn)], none, none, .rts b.session)) ∧
+    (b.state = S_WAITING_EOM_ACK → tickSndOne cfg now b = (none, [], none, none, .rts b.session)) := by
+  have e1 : (b.deadline != 0) = true := by simpa using hd
+  have e2 : ¬ b.deadline > now := by omega
+  have n13 : (S_WAITING_EOM_ACK == S_WAITING_CTS) = false := by decide
+  have n23 : (S_WAITING_EOM_ACK == S_SENDING_RTS_CTS) = false := by decide
+  refine ⟨?_, ?_⟩ <;> intro hs <;> unfold tickSndOne
+  · simp only [e1, if_true, e2, if_false, hs, beq_self_eq_true]
+  · simp only [e1, if_true, e2, if_false, hs, n13, n23, Bool.false_eq_true, beq_self_eq_true]
+
+/-- J1939-22, BOUND: every deadline a handler writes while a session waits is `now + T` with T ≤ 1.25 s, except the wait
+    for the end-of-message acknowledgement (T5 = 3 s) — the longest time a silent peer can keep a session alive -/
+theorem c06_22_timeouts : Const.T22.T1 ≤ 1250000 ∧ Const.T22.T2 ≤ 1250000 ∧ Const.T22.T3 ≤ 1250000 ∧ Const.T22.Th ≤ 1250000 ∧
+    Const.T22.T5 = 3000000 := by
+  decide
+
 end J1939.Props.C06
